@@ -172,9 +172,9 @@ theorem belowInner_neg (I : Island ℝ) (s : Summit) (inner : ℝ) :
 
 /-! ### amplitude bounds -/
 
-theorem ampBounds_neg (amp r inner outer : ℝ) (h : amp ≠ 0) :
-    ampBounds (-amp) r inner outer
-      = (-(ampBounds amp r inner outer).2, -(ampBounds amp r inner outer).1) := by
+theorem ampBounds_neg (amp r inner outer samp : ℝ) (h : amp ≠ 0) :
+    ampBounds (-amp) r inner outer samp
+      = (-(ampBounds amp r inner outer samp).2, -(ampBounds amp r inner outer samp).1) := by
   rcases lt_or_gt_of_ne h with hneg | hpos
   · have h1 : (0 : ℝ) < -amp := by linarith
     have h2 : ¬ ((0 : ℝ) < amp) := by linarith
@@ -193,16 +193,16 @@ theorem ampBounds_neg (amp r inner outer : ℝ) (h : amp ≠ 0) :
     · rw [show -outer * r = -(outer * r) by ring, max_neg_neg]; ring
 
 /-- the admissible amplitude interval of a positive summit lies strictly above 0 … -/
-theorem ampBounds_pos (amp r inner outer : ℝ) (ha : 0 < amp) (hr : 0 < outer * r) :
-    0 < (ampBounds amp r inner outer).1 := by
+theorem ampBounds_pos (amp r inner outer samp : ℝ) (ha : 0 < amp) (hr : 0 < outer * r) :
+    0 < (ampBounds amp r inner outer samp).1 := by
   simp only [ampBounds, lt_real, zero_real, ha, decide_true, if_true, R.real_min]
   have h95 : (0 : ℝ) < (c095 : ℝ) := by
     simp only [c095, R.real_ofSci]; norm_num
   exact mul_pos h95 (lt_min hr ha)
 
 /-- … and that of a negative summit strictly below 0 -/
-theorem ampBounds_neg_side (amp r inner outer : ℝ) (ha : amp < 0) (hr : 0 < outer * r) :
-    (ampBounds amp r inner outer).2 < 0 := by
+theorem ampBounds_neg_side (amp r inner outer samp : ℝ) (ha : amp < 0) (hr : 0 < outer * r) :
+    (ampBounds amp r inner outer samp).2 < 0 := by
   have h2 : ¬ ((0 : ℝ) < amp) := by linarith
   simp only [ampBounds, lt_real, zero_real, h2, decide_false, Bool.false_eq_true, if_false, R.real_max]
   have h95 : (0 : ℝ) < (c095 : ℝ) := by
@@ -260,7 +260,8 @@ theorem loop_neg (P : Params ℝ) (I : Island ℝ) (hnz : ∀ p v, I.data p = so
           · cases h1
         have hne := hnz p amp hmem
         have hr : (negI I).rms = I.rms := rfl
-        simp only [List.map_cons, ih (i + 1), hr, ampBounds_neg _ _ _ _ hne, negC]
+        have hsm : (negI I).sampling = I.sampling := rfl
+        simp only [List.map_cons, ih (i + 1), hr, hsm, ampBounds_neg _ _ _ _ _ hne, negC]
 
 /-- all finite pixels strictly positive, or all strictly negative -/
 def SingleSign (I : Island ℝ) : Prop :=
